@@ -721,6 +721,11 @@ impl Future for ServerWorker {
                             .call((guard, msg.io))
                             .into_inner();
                     }
+                    // The connection queue is closed: the accept thread has exited. A stop order
+                    // that arrived while this poll was under way must still be honoured (a
+                    // graceful stop waits for the connections in progress): poll again from the
+                    // top, which looks at the stop channel first.
+                    None if !this.stop_rx.is_empty() => return self.poll(cx),
                     None => return Poll::Ready(()),
                 };
             },
